@@ -157,6 +157,9 @@ def oracle_case(rng, out, names, dual):
         back = bt.translate(bt.reverse_translate(p, table=name), table=name)
         if back != p:
             out.append(dict(kind="translate-roundtrip", input=[name, p], detail=back))
+        back = bt.translate(bt.reverse_translate(p, randomize_codons=True, table=name), table=name)
+        if back != p:
+            out.append(dict(kind="translate-roundtrip", input=[name, p, "randomize_codons"], detail=back))
     n = rng.randint(1, 35)
     s = rand_seq(rng, n)
     g = bt.gc_content(s)
